@@ -30,6 +30,8 @@ const (
 func runC03(c *eng.Ctx) {
 	c.Rule("R03.12", "K5")
 	ruleReadAtAnswersFromTheFile(c)
+	c.Rule("R03.13", "K1")
+	ruleAppendRechecksReadonlyUnderTheLock(c)
 	p := c.P
 	hw := p.Field(clPkg, "commitLog", "hw")
 	waiters := p.Field(clPkg, "commitLog", "hwWaiters")
